@@ -42,6 +42,8 @@ CLAIMED = {
          "translator-regenerated reload structure + Lean theorems + failure/schedule/crash injection on the real code"),
  "C15": ("proof", "Lean: the handler's preflight accepts only if every item is valid (shape, no selector, route/policy/target/payload/headers/timestamps, id fresh and unique) and then the composed publish is all-or-nothing against the queue model (200 => all items stored as plain queued messages with one resolved target within limits; non-200 => queue unchanged apart from the piggy-backed retention prune, published 0); within each validation pass the reported index is the least failing one; the by-pass order is proved NOT to give the least index overall (witness) - known finding; tie: generated batches (1..1001 items, every invalidity kind at generated positions, duplicate ids in batch and in queue, near-full queues, drop_oldest) through the real Admin handler on memory and SQLite with full snapshots before/after; the property predicate is evaluated on the implementation's own answers independently of the handler's check order", "§7 C15",
          "Lean proof over the publish model composed with the queue model + differential correspondence (memory, SQLite)"),
+ "C19": ("proof", "PARTIAL. Proved in Lean for every value and token sequence: the quoting layer of the formatter is inverted by the lexer (quote/unquoted/placeholder round trips, the exact gap {x} with the proof that the lexer cannot produce it, word and line joining). Not proved: the per-directive completeness of format.go against parser.go - decided by a differential oracle only (Parse/Format/Parse/Compile deep comparison + idempotence) over the repository's own configuration corpus (tests+docs, re-read from /repo each run) and token-level mutations of it. The proved layer is tied to the code by differential runs of the real lexer and quoting helpers", "§7 C19",
+         "Lean proof of the lexer/quoting layer + differential correspondence; AST level differential only (stated in level text)"),
 }
 NOTE = "Trusted: Lean kernel (axioms propext/Classical.choice/Quot.sound only, audited each run), the hand-written model, the Go correspondence harness and generators (ours), Go stdlib, SQLite engine. PostgreSQL not executable here."
 
